@@ -6,7 +6,7 @@ import ast
 from .. import sym as S
 from ..engine import Check
 from ..loader import AnalysisError
-from ..rulelib import (_typestate, appends_in, calls_named, carried_with_entry, check_const, check_layout,
+from ..rulelib import (simulate_loop, _typestate, appends_in, calls_named, carried_with_entry, check_const, check_layout,
                        classify_effect, conds_sym, eval_conds, fld, func_eval, func_outcomes, inst_attr, loop_carried,
                        loops_of, reach_table, select_branch, self_stores, spec_expr, walk_cfg)
 
@@ -510,103 +510,76 @@ def contiguous(chk: Check, G: Geo):
     ok_f = len(args) == 4 and S.equiv(args[3], first_sc, domain=dom, n=60).equal is True
     chk.decide(ok_f, "K-PROV", "contiguous:first-subcluster", n, "counting starts at sc_index in the first cluster and at 0 afterwards",
                found=S.show(args[3])[:200] if len(args) == 4 else "?")
-    # per-iteration decision structure
+    # the walk as a transition system: whatever variables carry "type of the run" / "host offset the next cluster must have" /
+    # "is adjacency required", the decisions taken for a sequence of clusters must be QEMU's
     carried = loop_carried(chk, c, loop)
     cn, cinfo = carried_with_entry(chk, carried, S.C(0))
-    fn, finfo = carried_with_entry(chk, carried, S.C(False))
-    nones = [(nm, inf) for nm, inf in carried.items() if inf["phi"][0] == "phi" and inf["phi"][3] == S.C(None)]
-    if cinfo is None or finfo is None or len(nones) != 2:
-        chk.undecided("K-KIND", "contiguous:state-variables", loop, "cannot identify count / check_offset / expected type / expected offset")
+    if cinfo is None:
+        chk.undecided("K-KIND", "contiguous:state-variables", loop, "cannot identify the accumulated count")
         return
-    COUNT, CHECK = cinfo["phi"], finfo["phi"]
+    COUNT = cinfo["phi"]
     TYPE, CNT = ("sub", t, S.C(0)), ("sub", t, S.C(1))
-    # which None-initialised variable is the type, which the offset: by the terms they are compared with
-    ET = EO = None
-    body_first = [s for s, lab in hdr.succ if lab == "T"]
-    conds_all = []
-    for x in ast.walk(loop):
-        if isinstance(x, ast.If):
-            conds_all.append(R.expr(c, x.test, c.cfg.node_of[x]))
-    for nm, inf in nones:
-        phi = inf["phi"]
-        if any(S.contains(cc, lambda x: x[0] == "cmp" and ((x[2] == TYPE and x[3] == phi) or (x[3] == TYPE and x[2] == phi))) for cc in conds_all):
-            ET = phi
-        else:
-            EO = phi
-    if ET is None or EO is None:
-        chk.undecided("K-KIND", "contiguous:state-variables", loop, "cannot tell expected type from expected offset")
-        return
-    masked = ("op", "and", args[1], S.C(OFFMASK))
     masked = S.op("and", args[1], S.C(OFFMASK))
+    CHECKED = (ST["NORMAL"], ST["ZERO_ALLOC"], ST["UNALLOCATED_ALLOC"])
+    spc, cs_ = 32, 65536
+    fields = {("QCowHeader", 72): 16, ("QCowHeader", 20): 16}
+    # what follows the first cluster: (same type?, host offset relative to the first cluster in clusters or None = adjacent, short?)
+    FOLLOW = [(True, None, False), (True, +2, False), (True, 0, False), (False, None, False), (True, None, True)]
     bad = []
     ncase = 0
-    spc = 32
-    cnt_stmt = None
+    undecided = None
+    for t0 in range(6):
+        for o0 in (0, 5 * cs_):
+            for short0 in (False, True):
+                for f1 in FOLLOW:
+                    for f2 in FOLLOW[:3]:
+                        seq = [(t0, o0, short0)]
+                        for k, (same, rel, short) in enumerate((f1, f2), 1):
+                            seq.append((t0 if same else (t0 + 1) % 6, o0 + (k if rel is None else k + 1 + rel) * cs_, short))
+                        inputs = []
+                        for k, (ty, off, short) in enumerate(seq):
+                            cntv = 7 if short else spc - (2 if k == 0 else 0)
+                            inputs.append({I: k, TYPE: S.EnumConst(ty), CNT: cntv, masked: off, SCI: 2})
+                        rounds = simulate_loop(chk, c, loop, carried, inputs, fields=fields, watch=(cn,))
+                        ncase += 1
+                        total = 0
+                        for k, ((ty, off, short), (state, visited, ex, at)) in enumerate(zip(seq, rounds)):
+                            cntv = inputs[k][CNT]
+                            if ex[0] in ("fork", "limit"):
+                                undecided = f"cluster #{k} of {seq}: a test could not be evaluated at line {getattr(ex[1].ast, 'lineno', '?')}"
+                                break
+                            if k == 0 and ty == ST["COMPRESSED"]:
+                                want = ("return", None)
+                            elif k and ty != t0:
+                                want = ("break", total)
+                            elif k and ty in CHECKED and off != o0 + k * cs_:
+                                want = ("break", total)
+                            else:
+                                total += cntv
+                                want = ("break" if short else "back", total)
+                            kind = ex[0] if ex[0] not in ("left", "continue") else "back"
+                            got = (kind, None if kind == "return" else at.get(cn))
+                            if got != want:
+                                bad.append(f"clusters (type, host offset, short range) {seq[:k + 1]}: cluster #{k} -> {got[0]} with count {got[1]}, "
+                                           f"specified {want[0]} with count {want[1]}")
+                                break
+                            if want[0] != "back":
+                                break
+                        if undecided:
+                            break
+                    if undecided:
+                        break
+    if undecided:
+        chk.undecided("K-KIND", "contiguous:per-cluster-decision", loop, undecided)
+    else:
+        chk.decide(not bad, "K-KIND", "contiguous:per-cluster-decision", loop,
+                   f"the decisions for cluster sequences (return for a compressed first cluster; stop on type change, on a host cluster "
+                   f"that is not first + k*cluster_size for NORMAL / ZERO_ALLOC / UNALLOCATED_ALLOC runs, after a short range; count "
+                   f"otherwise) equal QEMU's on {ncase} sequences, including runs that start at host offset 0" if not bad else "; ".join(bad[:3]))
     for x in ast.walk(loop):
         if isinstance(x, ast.AugAssign) and isinstance(x.target, ast.Name) and x.target.id == cn:
-            cnt_stmt = c.cfg.node_of[x]
-    for i in (0, 1, 3):
-        for typ in range(6):
-            for et in (typ, (typ + 1) % 6):
-                for check in (False, True):
-                    for match in (False, True):
-                        for tail in (False, True):
-                            ncase += 1
-                            cs_ = 65536
-                            eo = 5 * cs_
-                            entry_off = eo + cs_ if match else eo + 3 * cs_
-                            cntv = 7 if tail else spc - (2 if i == 0 else 0)
-                            ov = {I: i, TYPE: S.EnumConst(typ), CNT: cntv, ET: S.EnumConst(et) if i else None, CHECK: check if i else False,
-                                  EO: eo if i else None, masked: entry_off, SCI: 2, COUNT: 100}
-                            val = S.Valuation(1, override=ov, fields={("QCowHeader", 72): 16, ("QCowHeader", 20): 16})
-                            visited, ex = walk_cfg(chk, c, body_first[0], val, within=c.cfg.loop_nodes[loop] | {hdr})
-                            counted = cnt_stmt in visited
-                            kind = ex[0]
-                            # specification
-                            if i == 0:
-                                if typ == ST["COMPRESSED"]:
-                                    want = ("return", False)
-                                else:
-                                    want = ("break" if tail else "back", True)
-                            elif typ != et:
-                                want = ("break", False)
-                            elif check and not match:
-                                want = ("break", False)
-                            else:
-                                want = ("break" if tail else "back", True)
-                            got = (kind if kind != "left" else "back", counted)
-                            if got != want:
-                                bad.append(f"cluster #{i} type {typ} expected {et} check_offset={check} adjacent={match} short={tail}: "
-                                           f"{got}, specified {want}")
-    chk.decide(not bad, "K-KIND", "contiguous:per-cluster-decision", loop,
-               f"per-cluster decision (return for a compressed first cluster, stop on type change / non-adjacent host cluster / "
-               f"short range, count otherwise) equals QEMU's on {ncase} cases" if not bad else "; ".join(bad[:3]))
-    # state installed by the first cluster and the offset advance
-    for x in ast.walk(loop):
-        if isinstance(x, ast.Assign) and len(x.targets) == 1 and isinstance(x.targets[0], ast.Name):
-            tn = x.targets[0].id
-            v = R.expr(c, x.value, c.cfg.node_of[x])
-            if tn == carried_name(carried, ET):
-                chk.decide(v == TYPE, "K-KIND", "contiguous:expected-type", x, "expected type := type of the first cluster", found=S.show(v)[:120])
-            elif tn == carried_name(carried, EO):
-                chk.decide(S.equiv(v, masked, n=30).equal is True, "K-KIND", "contiguous:expected-offset", x,
-                           "expected offset := first entry & L2E_OFFSET_MASK", found=S.show(v)[:160])
-            elif tn == fn:
-                tab = {}
-                for typ in range(7):
-                    try:
-                        tab[typ] = bool(S.ev(v, S.Valuation(1, override={TYPE: S.EnumConst(typ)})))
-                    except S.EvalError:
-                        tab[typ] = None
-                want = {typ: typ in (ST["NORMAL"], ST["ZERO_ALLOC"], ST["UNALLOCATED_ALLOC"]) for typ in range(7)}
-                chk.decide(tab == want, "K-KIND", "contiguous:check-offset-types", x,
-                           "host adjacency is required for NORMAL, ZERO_ALLOC and UNALLOCATED_ALLOC runs only", expected=str(want), found=str(tab))
-        if isinstance(x, ast.AugAssign) and isinstance(x.target, ast.Name):
             v = R._name(c, x.target.id, c.cfg.node_of[x], {}, True, 0)
-            if x.target.id == carried_name(carried, EO):
-                chk.formula("K-KIND", "contiguous:offset-advance", x, v, S.op("add", EO, G.env["cs"]), domain=G.dom)
-            elif x.target.id == cn:
-                chk.formula("K-KIND", "contiguous:count-advance", x, v, S.op("add", COUNT, CNT))
+            chk.formula("K-KIND", "contiguous:count-advance", x, v, S.op("add", COUNT, CNT))
     outs = func_outcomes(chk, c)
     finals = [o for o in outs if o[0] == "return" and o[1] not in list(ast.walk(loop))]
     chk.decide(len(finals) == 1 and finals[0][3][0] in ("phi", "join", "ite") or (len(finals) == 1 and S.contains(finals[0][3], lambda x: x == COUNT)),
